@@ -5,11 +5,13 @@ run next to hide(P), in which every literal is replaced by an opaque expression 
 (two devices the folder cannot see through: an identity call and a read of a fresh cell)."""
 import random
 
+import folddump
 import progprop
 import progstream as P
+from gen import ast as A, foldgen
 from gen.programs import INT, BOOL, STR, FLOAT, VOID, tup, fn, iter_of, arr, cell, multi
 from props import c07
-from vlib import sexp_parse, sexp_str
+from vlib import driver_run, esc_field, harness_run, sexp_parse, sexp_str
 
 THM_MODULES = ["SslModel.Thm.C04"]
 TRANSLATE_PARTS = ["scalar", "errors"]
@@ -346,12 +348,87 @@ def templates():
     return T
 
 
+def _first_order(p):
+    """no function literal / declaration / module / for / while-set anywhere (the fragment of the folding model)"""
+    def bad(e):
+        if isinstance(e, tuple):
+            if e and e[0] in ("fn", "fndecl", "mod", "for", "whileset", "import"):
+                return True
+            return any(bad(x) for x in e)
+        if isinstance(e, list):
+            return any(bad(x) for x in e)
+        return False
+    return not bad(p)
+
+
+def fold_model(res, tier, seed, broken_model):
+    """stream `fold-model`: the folded instruction trees the implementation builds (hook Code::verif_dump) against
+    the program the Lean model of the folding pass (Model/Fold, proved semantics-preserving in Thm/C04Fold) answers,
+    on programs mixing constants and run-time values; also the parse-time ExecErrors.  Returns the programs on which
+    the two disagree (they are handed to the twin execution as candidates for a failing input)."""
+    n = 1500 if tier == "quick" else 60000
+    progs = foldgen.generate(seed, n)
+    progs += [p for p in templates() if _first_order(p)]
+    st = dict(programs=len(progs), agree_folded=0, agree_parse_time_error=0, outside_fragment=0, rejected_by_checker=0,
+              folded_something=0, disagreements=0)
+    if broken_model:
+        res.streams["fold-model"] = dict(st, note="model not built")
+        return []
+    srcs = [A.program_src(p) for p in progs]
+    sxs = [A.program_sexp(p) for p in progs]
+    impl = harness_run(["dump\t\t%s" % esc_field(s) for s in srcs])
+    model = driver_run(["fold %s" % s for s in sxs])
+    suspects = []
+    for p, src, sx, il, ml in zip(progs, srcs, sxs, impl, model):
+        res.evaluations += 1
+        ms = sexp_parse(ml)
+        if not isinstance(ms, list) or not ms or ms[0] in ("bad-program", "bad-request"):
+            res.broken.append("correspondence:fold-model: the model could not read `%s`: %s" % (src[:200], ml[:80]))
+            continue
+        if ms[0] == "unsup":
+            st["outside_fragment"] += 1
+            res.count("fold-unsup:" + str(ms[1])[:40])
+            continue
+        if il.startswith("(dump "):
+            try:
+                iv = ["folded"] + folddump.dump_to_wire(il[6:-1])
+            except Exception as e:          # noqa: BLE001 - an unreadable dump is a broken tie, reported below
+                iv = ["unreadable-dump", str(e)[:80]]
+        else:
+            ii = sexp_parse(il)
+            if isinstance(ii, list) and ii and ii[0] == "rejected":
+                if ii[1] not in FOLDABLE:
+                    st["rejected_by_checker"] += 1      # the generator's doing (an ill-typed program); nothing to compare
+                    continue
+                iv = ["error", ii[1]]
+            else:
+                iv = ii
+        if sexp_str(ms) == sexp_str(iv):
+            if ms[0] == "error":
+                st["agree_parse_time_error"] += 1
+            else:
+                st["agree_folded"] += 1
+                if sexp_str(ms[1:]) != sexp_str(sexp_parse(sx)):
+                    st["folded_something"] += 1
+            res.nontrivial.add(("fold", src))
+            res.traces_validated += 1
+            continue
+        st["disagreements"] += 1
+        suspects.append(p)
+        if st["disagreements"] <= 5:
+            res.broken.append("correspondence:fold-model: `%s` folds to %s in the implementation, the model says %s"
+                              % (src[:300], sexp_str(iv)[:300], sexp_str(ms)[:300]))
+    res.streams["fold-model"] = st
+    return suspects
+
+
 def run(res, tier, seed, broken_model):
     rnd = random.Random(seed)
+    suspects = fold_model(res, tier, seed, broken_model)
     n = 350 if tier == "quick" else 9000
     progs, stats = P.generate(seed, n, max_depth=3, features=dict(mark=0.25))
     T = templates() + c07.templates()[::5]
-    base = T + progs
+    base = T + progs + suspects[:40]
     variants = []
     for p in base:
         variants += [p, hide(p, "call"), hide(p, "cell")]
